@@ -71,11 +71,18 @@ func Run(a ConstMatrix, args ...interface{}) (Matrix, Matrix, error) {
   // allocate memory
   if inSitu.L == nil {
     inSitu.L = NullDenseMatrix(t, n, n)
+  } else {
+    if n1, m1 := inSitu.L.Dims(); n1 != n || m1 != n {
+      panic("Cholesky(): InSitu.L has invalid dimension!")
+    }
   }
   if ldl {
     if inSitu.D == nil {
       inSitu.D = NullDenseMatrix(t, n, n)
     } else {
+      if n1, m1 := inSitu.D.Dims(); n1 != n || m1 != n {
+        panic("Cholesky(): InSitu.D has invalid dimension!")
+      }
       inSitu.D.Map(func(x Scalar) { x.SetFloat64(0.0) })
     }
   }
